@@ -66,5 +66,25 @@ PROPS.update({
              'termination measures of all four bounded searches and of the recursion (rank). That calc answers RuntimeError for unschedulable inputs (cycle through the hierarchy, outside predecessor without dates, fixed end in the future) '
              'is decided by the bounded stand-in only.', _SCHED_B, _SCHED_TRUST + ['A-stack'], design_ref='8/C14'),
 })
+_GRAPH_TRUST = ['assumed contract of the built-in list (append/remove/in/index/clear; abstract list theory T1, validated against CPython lists in the thorough tier)',
+                'graph lemma axioms D1-D5, G1 (transcriptions of lemmas/Graph.lean, proved in Lean 4 + Mathlib; transcription trusted, validated on all relations over <= 4 nodes)',
+                'history induction (meta-argument): every public mutator preserves Inv on both exits, constructors establish it; closed by the encapsulation scan']
+_GRAPH_B = ['Task.children.setter, WBS.roots.setter, _ChildrenList.remove/insert/move/sort/reorder, WBS.remove/__remove/remove_all, _TaskList.remove_all, Task.__init__, WBS.__init__ - bounded stand-in only (random histories of public calls)',
+            'closure helpers assumed by contract: Task.all_children = strict descendants, all_parents = strict ancestors below the hidden root, all_predecessors/all_successors = transitive closure, _has_id_intersection, '
+            '_check_no_links_to_ancestors, _attach - their bodies are covered by the bounded stand-in only']
+_GRAPH_EXPL = ('contract-based deductive verification of the core mutators: Task.parent.setter (incl. its re-entrant call through roots.append, checked against its own contract) and both dependency setters are symbolically '
+               'executed from the real source; the shared invariant Inv (forest F1-F4, list objects distinct, ownership W1/W1r/WR, links symmetric M1, acyclic M2 via the Lean-proved lemma G1, no link along the hierarchy X1) is '
+               'proved on the normal AND the exceptional exit for an arbitrary heap satisfying Inv - i.e. for every history - together with `rejected => heap unchanged` (C15), `rejected only for a stated reason / accepted only without one`, '
+               'and the exact effect with frame (C16). Level `other`: the children setter, the list facades other than append, WBS-level operations and the closure helpers are assumed by contract and covered by the bounded native '
+               'stand-in (random histories over task objects sharing ids, two WBSs, stale list facades, constructors). ')
+PROPS.update({
+    'C01': P('other', _GRAPH_EXPL, _GRAPH_B, _GRAPH_TRUST, design_ref='8/C01'),
+    'C05': P('other', _GRAPH_EXPL + 'C05: the id-clash test is an assumed contract (_has_id_intersection as a function of the pre-state); uniqueness itself, lookup by id and the depth-first listing are decided by the bounded stand-in.',
+             _GRAPH_B + ['WBS.__getitem__', 'WBS.tasks'], _GRAPH_TRUST, design_ref='8/C05'),
+    'C11': P('other', _GRAPH_EXPL + 'C11: W1 (owner constant along the hierarchy), W1r (a task reports WBS X only if it is reachable from X\'s hidden root) and WR proved for re-parenting incl. subtree adoption; release paths (remove, assignments) bounded.',
+             _GRAPH_B, _GRAPH_TRUST, design_ref='8/C11'),
+    'C15': P('other', _GRAPH_EXPL, _GRAPH_B, _GRAPH_TRUST, ['constructor atomicity is a known finding (A-12)'], design_ref='8/C15'),
+    'C16': P('other', _GRAPH_EXPL, _GRAPH_B, _GRAPH_TRUST, design_ref='8/C16'),
+})
 for _p in ['C01', 'C02', 'C03', 'C04', 'C05', 'C06', 'C07', 'C08', 'C09', 'C10', 'C11', 'C12', 'C13', 'C14', 'C15', 'C16', 'C18', 'C19', 'C20']:
     PROPS.setdefault(_p, P('other', 'see MANIFEST.json', design_ref='8/' + _p))
